@@ -85,7 +85,7 @@ func (r Rounder) Round(c *Context, d, x *Decimal, disableIfPrecisionZero bool) C
 		res |= Subnormal
 		// setExponent here to prevent double-rounded subnormals.
 		res |= d.setExponent(c, nd, res, int64(d.Exponent))
-		return res
+		return d.exponentLimit(c, res)
 	}
 
 	diff := nd - int64(c.Precision)
